@@ -4,6 +4,8 @@ import (
 	"bytes"
 	"fmt"
 	"math"
+	"os"
+	"path/filepath"
 	"sort"
 	"time"
 
@@ -197,7 +199,7 @@ func genDelivery(r *vlib.R, set data.Points) []data.Points {
 func runC01(tier string, _ []string) int {
 	c := vlib.NewCtx("C01", tier, "exploration")
 	vlib.SetPortBlock(1)
-	c.SetRule("per case a PRNG point set (1-12 identities x 1-6 versions; strings from a hostile pool incl. colliding concatenations (ab,'')/(a,b), keys '' and '0' of one type, quotes, Unicode; values +-0, +-Inf, subnormals, >2^53; tombstones; origins; data; timestamps distinct per identity over the whole int64-ns range and clustered) is delivered k times to k fresh nodes (node points) and k fresh edges (edge points), each under its own permutation x partition into acknowledged batches x re-deliveries; after every batch the node is read back (deleted included) and compared with the newest-wins reference model; a third of the nodes get a second placement (mirror or move below a group) before one of the batches and are then also read through the other parent, through parent \"all\" and through the group's child list. distinct = (node|edge, order kind, number of batches, set features: collision pair / ''+'0' pair / in-batch duplicates)")
+	c.SetRule("per case a PRNG point set (1-12 identities x 1-6 versions; strings from a hostile pool incl. colliding concatenations (ab,'')/(a,b), keys '' and '0' of one type, quotes, Unicode; values +-0, +-Inf, subnormals, >2^53; tombstones; origins; data; timestamps distinct per identity over the whole int64-ns range and clustered) is delivered k times to k fresh nodes (node points) and k fresh edges (edge points), each under its own permutation x partition into acknowledged batches x re-deliveries; after every batch the node is read back (deleted included) and compared with the newest-wins reference model; a third of the nodes get a second placement (mirror or move below a group) before one of the batches and are then also read through the other parent, through parent \"all\" and through the group's child list. Finally three runs of an instance on one data file: each run adds nodes and new identities, every node of every run is read back in every run. distinct = (node|edge, order kind, number of batches, set features: collision pair / ''+'0' pair / in-batch duplicates)")
 	c.Assume("equal timestamps on one identity, zero times and nodeType edge points are not generated (left open by the property); NaN belongs to C05")
 	nSets := c.N(60, 1500)
 	k := c.N(4, 8)
@@ -426,6 +428,90 @@ func runC01(tier string, _ []string) int {
 	if err != nil {
 		c.CheckError(err.Error())
 	}
+	// ---- second and later runs on the same data file: what earlier runs stored is untouched by what is
+	// delivered now (new nodes, new identities on old nodes), and everything reads back by the same rule
+	nRestart := c.N(4, 40)
+	vlib.Parallel(nRestart, 4, func(i int) {
+		r := vlib.NewR(c.Seed, "c01restart", i)
+		dir, derr := os.MkdirTemp("", "verif-c01-")
+		if derr != nil {
+			c.Inconclusive(derr.Error())
+			return
+		}
+		defer os.RemoveAll(dir)
+		file := filepath.Join(dir, "store.sqlite")
+		models := map[string]newestModel{}
+		var order []string
+		wit := map[string]any{"case": i, "seed": c.Seed, "stage": "restart"}
+		for run := 0; run < 3; run++ {
+			in, err := vlib.StartInstance(vlib.InstCfg{ID: fmt.Sprintf("c01r-%d", i), StoreFile: file})
+			if err != nil {
+				c.Violate("store:file-does-not-reopen", fmt.Sprintf("run %d on the same file: %v", run+1, err), wit)
+				return
+			}
+			nc, err := in.Connect()
+			if err != nil {
+				in.StopKeepFiles()
+				c.Inconclusive(err.Error())
+				return
+			}
+			bad := func() bool {
+				// new nodes of this run, and new identities on nodes of earlier runs
+				var targets []string
+				for q := 0; q < 2; q++ {
+					id := fmt.Sprintf("r%d-%d-%d", i, run, q)
+					if e, err := vlib.SendAck(nc, vlib.EdgeSubj(id, in.RootID), data.Points{{Type: data.PointTypeNodeType, Text: "c01Node"}}); err != nil || e != "" {
+						c.Violate("store:legal-write-refused", fmt.Sprint(err, e), wit)
+						return true
+					}
+					models[id] = newestModel{}
+					order = append(order, id)
+					targets = append(targets, id)
+				}
+				if run > 0 {
+					targets = append(targets, order[r.Intn(len(order)-2)])
+				}
+				for _, id := range targets {
+					set := genPointSet(r, false)
+					for _, b := range genDelivery(r, set) {
+						batch := append(data.Points{}, b...)
+						for k := range batch {
+							batch[k].Type = fmt.Sprintf("run%d-", run) + batch[k].Type // identities this file has not seen before
+						}
+						e, err := vlib.SendAck(nc, vlib.NodeSubj(id), batch)
+						c.Eval(1)
+						if err != nil || e != "" {
+							c.Violate("store:legal-write-refused", fmt.Sprint(err, e), wit)
+							return true
+						}
+						for _, p := range batch {
+							models[id].deliver(p)
+						}
+					}
+				}
+				// every node of every run so far
+				for _, id := range order {
+					nodes, err := client.GetNodes(nc, in.RootID, id, "", true)
+					if err != nil || len(nodes) != 1 {
+						c.Violate("store:node-unreadable", fmt.Sprintf("run %d: node %s of an earlier run cannot be read: %v (%d)", run+1, id, err, len(nodes)), wit)
+						return true
+					}
+					if sig, what := storedDiff(models[id], nodes[0].Points, true); sig != "" {
+						wit["node"], wit["read"] = id, witnessPoints(nodes[0].Points)
+						c.Violate(sig, fmt.Sprintf("run %d on the same file, node %s: %s", run+1, id, what), wit)
+						return true
+					}
+					c.Count("nodes_compared_across_restarts", 1)
+				}
+				return false
+			}()
+			in.StopKeepFiles()
+			if bad {
+				return
+			}
+		}
+		c.Distinct("three runs on one file")
+	})
 	c.Require("prefix_comparisons", 100)
 	return c.Finish()
 }
